@@ -150,8 +150,116 @@ let show_fastq ((rs, e), pos) =
 
 let sres_s = function SOk -> "Ok" | SNoFuel -> "NoFuel"
 
+(* ---- C16 index readers (NV.Async.IndexRead): kinds agzi / abai --------------------------------
+   args = data sizes with_pending; poll script codes via script_codes (0 = Pending, k+1 = Ready k).
+   Printing only: the canonical text of harness/src/shared/c16_idxr.rs (gzi_canon / bai_canon).
+   The model hands over ix_obs values (IxVal / IxErrKind code / IxPanic) over tuples and lists. *)
+let ixr_show (f : 'a -> string) (r : 'a ix_obs) : string = match r with
+  | IxVal v -> f v
+  | IxPanic -> "Panic"
+  | IxErrKind c ->
+      (match int_of_n c with 1 -> "Err:UnexpectedEof" | 2 -> "Err:InvalidData" | _ -> "NoFuel")
+
+let ixr_gzi l =
+  "n=" ^ string_of_int (List.length l) ^ ":"
+  ^ String.concat "," (List.map (fun (c, u) -> dec_of_n c ^ "-" ^ dec_of_n u) l)
+
+let ixr_bai (refs, unplaced) =
+  let chunk (b, e) = dec_of_n b ^ "-" ^ dec_of_n e in
+  let bin (id, cs) = dec_of_n id ^ ":" ^ String.concat "," (List.map chunk cs) in
+  let meta m = match m with
+    | None -> "-"
+    | Some (((b, e), mp), um) -> String.concat "," (List.map dec_of_n [b; e; mp; um]) in
+  let rf ((bins, m), ivs) =
+    "[" ^ String.concat "/" (List.map bin bins) ^ "|" ^ meta m ^ "|"
+    ^ String.concat "," (List.map dec_of_n ivs) ^ "]" in
+  "n=" ^ string_of_int (List.length refs) ^ String.concat "" (List.map rf refs)
+  ^ "|u=" ^ (match unplaced with None -> "-" | Some n -> dec_of_n n)
+
+let ixr_handle kind (a : string array) = match kind with
+  | "agzi" ->
+      let data = bytes_of_hex a.(0) in
+      Some ("sync=" ^ ixr_show ixr_gzi (sync_gzi_case data)
+            ^ " async=" ^ ixr_show ixr_gzi (async_gzi_case (script_codes a.(1) a.(2)) (nat_of_int 8) data))
+  | "abai" ->
+      let data = bytes_of_hex a.(0) in
+      Some ("sync=" ^ ixr_show ixr_bai (sync_bai_case data)
+            ^ " async=" ^ ixr_show ixr_bai (async_bai_case (script_codes a.(1) a.(2)) (nat_of_int 8) data))
+  | _ -> None
+
+(* ---- C16 index writers (kinds wgzi wbai wcsi wtbi): parsing of C17's index text encoding and
+   printing only; calls / bytes / statuses all come from NV.Async.IndexWrite.idxw_*_case ---- *)
+let iw_opt s f = if s = "-" then None else Some (f s)
+let iw_list sep s f = if s = "_" then [] else List.map f (split_on sep s)
+let iw_pairs s = iw_list ',' s (fun p -> match split_on ':' p with
+  | [a; b] -> (n_of_dec a, n_of_dec b) | _ -> failwith "pair")
+let iw_hdr s = iw_opt s (fun s -> match split_on ':' s with
+  | [f; sq; bg; en; mt; sk; nm] ->
+      { h_format = (match f with "g" -> FGeneric false | "b" -> FGeneric true | "s" -> FSam | "v" -> FVcf
+                    | _ -> failwith "fmt");
+        h_seq = n_of_dec sq; h_beg = n_of_dec bg; h_end = iw_opt en n_of_dec; h_meta = n_of_dec mt;
+        h_skip = n_of_dec sk;
+        h_names = iw_list ',' nm (fun s -> if s = "." then [] else bytes_of_hex s) }
+  | _ -> failwith "hdr")
+let iw_meta s = iw_opt s (fun m -> match split_on ':' m with
+  | [a; b; c; d] -> { m_beg = n_of_dec a; m_end = n_of_dec b; m_mapped = n_of_dec c; m_unmapped = n_of_dec d }
+  | _ -> failwith "meta")
+let iw_bins s = iw_list ';' s (fun b -> match split_on '=' b with
+  | [id; cs] -> (n_of_dec id, iw_pairs cs) | _ -> failwith "bin")
+let iw_cref s = match split_on '|' s with
+  | [b; l; m] -> { cr_bins = iw_bins b; cr_loffs = iw_pairs l; cr_meta = iw_meta m }
+  | _ -> failwith "cref"
+let iw_tref s = match split_on '|' s with
+  | [b; m; iv] -> { br_bins = iw_bins b; br_meta = iw_meta m; br_intervals = iw_list ',' iv n_of_dec }
+  | _ -> failwith "tref"
+let iw_end s = match int_of_n s with 0 -> "ok" | 1 -> "Err:InvalidInput" | _ -> "Panic"
+(* calls: only where the sink sees them (no BGZF writer in between); bytes after a panic of a
+   BGZF-wrapped writer are lost with the writer *)
+let iw_obs with_calls o =
+  let bgzf = not with_calls in
+  let calls = if with_calls then
+      "calls=" ^ (if o.io_calls = [] then "_" else
+                  String.concat "," (List.map (fun k -> string_of_int (int_of_nat k)) o.io_calls)) ^ " "
+    else "" in
+  let bytes = if bgzf && int_of_n o.io_end = 2 then "-" else hex_of_bytes o.io_bytes in
+  let sync = if int_of_n o.io_sync_end = 0 then hex_of_bytes o.io_sync ^ " ok" else "- " ^ iw_end o.io_sync_end in
+  calls ^ "bytes=" ^ bytes ^ " end=" ^ iw_end o.io_end ^ " sync=" ^ sync
+
+(* kind `acram`: args = data sizes with_pending chunk *)
+let show_cram (cs, stop) =
+  let ctx h =
+    let rid = dec_of_z h.ch_rid in
+    if rid = "-1" then "n" else if rid = "-2" then "m"
+    else "s" ^ rid ^ ":" ^ dec_of_z h.ch_start ^ ":" ^ string_of_int (int_of_string (dec_of_z h.ch_start) + int_of_string (dec_of_z h.ch_span) - 1) in
+  let one (h, len) =
+    String.concat "/" [dec_of_n len; ctx h; dec_of_n h.ch_nrec; dec_of_n h.ch_counter; dec_of_n h.ch_bases;
+                       dec_of_n h.ch_nblocks;
+                       (if h.ch_landmarks = [] then "_" else String.concat "." (List.map dec_of_n h.ch_landmarks))] in
+  String.concat ";" (List.map one cs) ^ "|" ^ dec_of_n stop
+
+(* kind `afar`: args = data cap sizes with_pending *)
+let show_frecs rs =
+  String.concat ";" (List.map (fun r ->
+    hex_of_bytes r.r_name ^ ":" ^ (match r.r_desc with None -> "-" | Some d -> hex_of_bytes d) ^ ":" ^ hex_of_bytes r.r_seq) rs)
+let show_fend = function FEnd -> "ok" | FInvalidData -> "Err:InvalidData" | FNoFuel -> "NoFuel"
+
 let handle kind a =
   match kind with
+  | "afar" ->
+      let data = bytes_of_hex a.(0) and cap = nat_of_int (int_of_string a.(1)) in
+      let (srs, se) = sync_fasta_records_case data in
+      let ((ars, ae), pos) = async_fasta_records_case cap (script_codes a.(2) a.(3)) data in
+      let (crs, ce) = closed_fasta_records_case data in
+      Some ("sync=" ^ show_frecs srs ^ "|" ^ (match se with None -> "ok" | Some RInvalidData -> "Err:InvalidData" | Some ROutOfFuel -> "NoFuel")
+            ^ " async=" ^ show_frecs ars ^ "|" ^ show_fend ae ^ "|" ^ string_of_int (int_of_nat pos)
+            ^ " closed=" ^ show_frecs crs ^ "|" ^ show_fend ce
+            ^ (let (rrs, re) = sync_fasta_records_run cap { s_data = data; s_script = [] } in
+               " srun=" ^ show_frecs rrs ^ "|" ^ show_fend re))
+  | "acram" ->
+      let data = bytes_of_hex a.(0) in
+      let chunk = nat_of_int (int_of_string a.(3)) in
+      Some ("sync=" ^ show_cram (sync_cram_case data)
+            ^ " async=" ^ show_cram (async_cram_case (script_codes a.(1) a.(2)) chunk data))
   | "agff" ->
       let data = bytes_of_hex a.(0) and cap = nat_of_int (int_of_string a.(1)) in
       Some ("sync=" ^ show_gff (sync_gff_case data)
@@ -229,6 +337,16 @@ let handle kind a =
         else if mode = 1 || mode = 4 then List.map (fun _ -> nat_of_int 1) file
         else [] in
       Some ("sync=" ^ fmt_obs (sync_obs_case nvalid file) ^ " async=" ^ fmt_obs (async_obs_case nvalid sizes file))
-  | _ -> None
+  | "wgzi" -> Some (iw_obs true (idxw_gzi_case (iw_pairs a.(0))))
+  | "wbai" ->
+      Some (iw_obs true (idxw_bai_case { bi_refs = iw_list '/' a.(1) iw_tref; bi_unplaced = iw_opt a.(0) n_of_dec }))
+  | "wcsi" ->
+      Some (iw_obs false (idxw_csi_case
+        { ci_ms = n_of_dec a.(0); ci_depth = nat_of_int (int_of_string a.(1)); ci_header = iw_hdr a.(2);
+          ci_refs = iw_list '/' a.(3) iw_cref; ci_unplaced = iw_opt a.(4) n_of_dec }))
+  | "wtbi" ->
+      Some (iw_obs false (idxw_tbi_case
+        { ti_header = iw_hdr a.(0); ti_refs = iw_list '/' a.(1) iw_tref; ti_unplaced = iw_opt a.(2) n_of_dec }))
+  | k -> ixr_handle k a
 
 let () = run_driver handle
